@@ -261,7 +261,7 @@ func c08Run(c *Ctx) {
 						if t == -1 && entry == entDefinition && g0.Place[0] == 0 {
 							continue // N0 itself is the root definition: there is no entry reference
 						}
-						for _, mode := range []int{brkNoPointer, brkNoDoc, brkString, brkNumber, brkBool, brkArray, brkCaseName} {
+						for _, mode := range []int{brkNoPointer, brkNoDoc, brkString, brkNumber, brkBool, brkArray, brkCaseName, brkUnsetMember} {
 							g := g0.clone()
 							g.Breaks = map[int]int{t: mode}
 							if !mine(g, "") {
@@ -347,7 +347,7 @@ func fnvHash(s string) uint32 {
 func init() {
 	register(&CheckDef{
 		ID: "C08", Build: "instr", Run: c08Run, RunCase: c08RunCase,
-		Rule:        "states = reference graphs on <= 2 nodes (every topology, 5-7 placements, every entry element, chains over 1-2 documents) in which one (thorough: two) reference(s) - any schema edge at any keyword position, the entry reference, a chain hop - is made unresolvable in each of 7 ways (pointer nowhere, pointer differing from an existing name by letter case only, document missing, target a string / number / boolean / array), plus every subset of <= 2 requested documents refused by the loader, with ContinueOnError off and on, each under every map order within 1 deviation; oracle from the reference model: strict mode errs iff some reference it has to follow is unresolvable; continue mode returns nil, keeps unresolvable schema refs verbatim, and expands independent elements completely; non-trivial = a case with at least one broken reference or refused document",
+		Rule:        "states = reference graphs on <= 2 nodes (every topology, 5-7 placements, every entry element, chains over 1-2 documents) in which one (thorough: two) reference(s) - any schema edge at any keyword position, the entry reference, a chain hop - is made unresolvable in each of 8 ways (pointer nowhere, pointer into an unset member of an existing node, pointer differing from an existing name by letter case only, document missing, target a string / number / boolean / array), plus every subset of <= 2 requested documents refused by the loader, with ContinueOnError off and on, each under every map order within 1 deviation; oracle from the reference model: strict mode errs iff some reference it has to follow is unresolvable; continue mode returns nil, keeps unresolvable schema refs verbatim, and expands independent elements completely; non-trivial = a case with at least one broken reference or refused document",
 		Assumptions: []string{"a reference 'has to be followed' when it is reachable from a root element of the document", "in continue mode only unresolvable schema $refs are required to stay verbatim (the statement's wording); what happens to an unresolvable parameter/response/path-item $ref is not judged", "a target that is JSON null is not in the statement's list and is not generated here"},
 		MinOutcomes: 3,
 	})
